@@ -251,6 +251,20 @@ def skeleton_part(run, tier):
         sents = shortest_sentences(P)
         sqls = [(' '.join(lexemes.get(t, t) for t in types), 'production %s' % str(p).split('  [')[0]) for p, types in sents]
         sqls += [(s, 'corpus') for s in corpus[d]]
+        # the corpus statements in other layouts: one blank between two tokens replaced by an empty line, by a comment-only line, by several
+        # empty lines and an indentation (a statement that stores raw text of an inner query stores its layout too: the stored text must be a
+        # fixed point of print -> parse -> print)
+        for s_ in corpus[d]:
+            if len(s_) > 400:
+                continue
+            try:
+                toks_ = list(L().tokenize(s_))
+            except Exception:  # noqa
+                continue
+            gaps_ = [(toks_[i_].end, toks_[i_ + 1].index) for i_ in range(len(toks_) - 1) if s_[toks_[i_].end:toks_[i_ + 1].index] == ' ']
+            for lo_, hi_ in gaps_[1::max(1, len(gaps_) // 5)][:6]:
+                for filler_ in ('\n\n', '\n-- c\n', '\n\n\n   '):
+                    sqls.append((s_[:lo_] + filler_ + s_[hi_:], 'corpus statement in another layout'))
         # every production with each ONE of its nonterminal children replaced by each alternative shallow derivation (ACTTREE
         # derivations, regenerated from the live grammar), placed in the shortest context of its left-hand side
         from harness import c02u2
